@@ -50,7 +50,10 @@ def _case(draw):
     late = draw(st.sampled_from(['none', 'none', 'all', 'one', 'one']))
     return dict(grid=g, bc=bc, init=draw(gen.cell_interior(d)), terms=terms, ext=draw(st.booleans()),
                 lin_seed=draw(st.integers(0, 2 ** 31 - 1)), late=late,
-                late_side=[draw(st.integers(0, len(d) - 1)), draw(st.sampled_from(['lo', 'hi']))], presolve=draw(st.booleans()))
+                late_side=[draw(st.integers(0, len(d) - 1)), draw(st.sampled_from(['lo', 'hi']))], presolve=draw(st.booleans()),
+                # how the solution variable came to be: ordinary, built without a pre-calculated boundary term (public keyword),
+                # or handed over by solveExplicitPDE (which builds such a variable)
+                varkind=draw(st.sampled_from(['ordinary', 'ordinary', 'ordinary', 'precalc_false', 'from_explicit'])))
 
 
 def strategy(tier):
@@ -66,7 +69,8 @@ def classify(case):
     d = dims_of(g['faces'])
     kinds = sorted({t['kind'] for t in case['terms']})
     return dict(grid=g['name'], N="x".join(map(str, d)), nterms=len(case['terms']), nkinds=len(kinds),
-                neg=any(t['scale'] != 1.0 for t in case['terms']), ext=case['ext'], late=case.get('late', 'none'))
+                neg=any(t['scale'] != 1.0 for t in case['terms']), ext=case['ext'], late=case.get('late', 'none'),
+                varkind=case.get('varkind', 'ordinary'))
 
 
 def _nondefault_bc(bc):
@@ -182,9 +186,14 @@ def check(case):
     n = int(np.prod(full_shape(d)))
     late = case.get('late', 'none')
     bc_final = case['bc']
+    varkind = case.get('varkind', 'ordinary')
     if late == 'none':
         P = dict(name=name, faces=g['faces'], bc=case['bc'], init=case['init'])
         m, BC, phi = problem.build_var(P)
+        if varkind == 'precalc_false':
+            phi = pf.CellVariable(m, np.array(case['init'], float), BC, BCsTerm_precalc=False)
+        elif varkind == 'from_explicit':
+            phi = pf.solveExplicitPDE(phi, 1.0, np.zeros(n))
     else:
         from ..common import SIDES, default_bc_spec
         m = make_grid(name, g['faces'])
@@ -233,7 +242,9 @@ def check(case):
     if abs(Mbc[rows, :]).sum() != 0 or np.any(vbc[rows] != 0):
         res.fail(f"bcterm-interior-row:{name}", f"boundaryConditionsTerm has entries in interior rows on {name}")
     Mstar, vstar = _assemble((Mbc, vbc), contribs, dom)
-    cached_before = (phi._BCsTerm[0].copy(), phi._BCsTerm[1].copy())
+    has_cache = hasattr(phi, '_BCsTerm')
+    cached_before = (phi._BCsTerm[0].copy(), phi._BCsTerm[1].copy()) if has_cache else None
+    given = phi
     rec = {}
 
     def ext(M, b):
@@ -242,8 +253,8 @@ def check(case):
         return rec['x']
     tl = terms + [dom]
     out = pf.solvePDE(phi, tl, externalsolver=ext)
-    if out is not phi:
-        res.fail("identity", "solvePDE did not return the variable it was given")
+    if out is not given:
+        res.fail(f"identity:{varkind}", f"solvePDE did not return the variable it was given (variable kind: {varkind})")
     x_own = spsolve(Mstar, vstar)
     if not np.all(np.isfinite(x_own)):
         res.discarded = True
@@ -286,8 +297,8 @@ def check(case):
     res.expect_small("solveMatrixPDE", float(np.abs(np.asarray(alt.value) - np.asarray(phi.value)).max() / sc), 1e-11,
                      f"solveMatrixPDE:{name}", f"solvePDE != solveMatrixPDE on the hand-assembled system on {name}")
     # (vii) cached boundary term: untouched by the accumulation, and (after a late BC edit) rebuilt to the current BCs
-    after = phi._BCsTerm
-    if late == 'none' and (abs(after[0] - cached_before[0]).sum() != 0 or not np.array_equal(after[1], cached_before[1])):
+    after = phi._BCsTerm if has_cache else (Mbc, vbc)
+    if has_cache and late == 'none' and (abs(after[0] - cached_before[0]).sum() != 0 or not np.array_equal(after[1], cached_before[1])):
         res.fail(f"cached-bcterm:{name}", f"solvePDE changed the variable's cached boundary term on {name}")
     if abs(after[0] - Mbc).sum() != 0 or not np.array_equal(after[1], vbc):
         res.fail(f"cached-bcterm-current:{name}", f"after solvePDE the variable's cached boundary term is not the one its current boundary "
